@@ -122,13 +122,25 @@ class Agg:
             self._il.add(st.interleave_sig)
             self._lf |= st.live_fps
             nontrivial = self.is_nontrivial(st, fired)
-            if nontrivial:
+            if hasattr(st, "cli_sig"):
+                cli = plan.get("cli", {})
+                if cli.get("files") or cli.get("args") or cli.get("qclass") in ("fail", "reject"):
+                    self._nt.add(st.cli_sig)
+                for o in cli.get("opts", []) or ["(none)"]:
+                    d["cli"]["opt " + o] = d["cli"].get("opt " + o, 0) + 1
+                d["cli"]["qmode " + str(cli.get("qmode"))] = d["cli"].get("qmode " + str(cli.get("qmode")), 0) + 1
+                for f in cli.get("files", []):
+                    k = "file " + f["health"] + ("" if f["health"] == "ok" else ":" + str(f.get("val")))
+                    d["cli"][k] = d["cli"].get(k, 0) + 1
+                d["cli"]["files=%d" % len(cli.get("files", []))] = d["cli"].get("files=%d" % len(cli.get("files", [])), 0) + 1
+                d["cli"]["args=%d" % len(cli.get("args", []))] = d["cli"].get("args=%d" % len(cli.get("args", [])), 0) + 1
+            elif nontrivial:
                 ph = hashlib.sha1(repr(sorted(p["text"] for p in plan["progs"])).encode("latin-1", "replace")).hexdigest()[:10]
                 fs = ",".join(sorted(fired))
                 self._nt.add("%s/%s/%s" % (ph, st.interleave_sig, fs))
         for k, v in fired.items():
             d["faults_fired"][k] = d["faults_fired"].get(k, 0) + v
-        if len(d["samples"]) < 3 and st is not None and st.steps > 4:
+        if len(d["samples"]) < 3 and st is not None and (st.steps > 4 or hasattr(st, "cli_sig")):
             d["samples"].append({"run_index": idx, "config": cfg, "plan": plan})
 
     def is_nontrivial(self, st, fired):
